@@ -3,7 +3,7 @@
     the chain contains the six validation steps ([has_tags _ tags6], decidable, re-checked on the chain go2v extracts).
     Decoding (base64, DEFLATE, XML, unknown SAMLEncoding) is the oracle [decode]; its codec part is C18. *)
 From Saml Require Import Base.Bytes Idp.FactTypes Gen.Facts Idp.Sso Proofs.SsoProofs Proofs.SsoAccept.
-From Saml Require Import Xml.SchemaTypes Xml.Schema Gen.Schema Xml.SamlSpec Codec.Base64 Core.WireCodec Core.DecodeVia Proofs.SsoCodec.
+From Saml Require Import Xml.SchemaTypes Xml.Schema Gen.Schema Xml.SamlSpec Codec.Base64 Core.WireCodec Core.DecodeVia Proofs.SsoCodec Idp.BuilderTypes Idp.Builder Xml.Unmarshal Idp.AuthnOf.
 
 Section C06.
 Variable e_form : option form.
@@ -79,6 +79,22 @@ Theorem C06_decode_from_source :
   logout_decode_call = [("arg0", "logoutRequestForm.Encoding"); ("arg1", "logoutRequestForm.LogoutRequest")]%string.
 Proof. exact decode_functions_from_source. Qed.
 
+(** decoding opened up a second level: the parser is Unmarshal into samlp.AuthnRequestType (Xml/Unmarshal.v over the schema
+    generated from the struct tags) followed by the projection onto the seven fields the handler reads (Idp/AuthnOf.v);
+    the harness checks [authn_of_doc] against the handler's own decoder on every request of the SSO streams
+    (Corr.SsoCorr.doc_ok).  Consequences for every document: what the handler sees is determined by those seven fields
+    alone; a root element other than samlp:AuthnRequest, or content after the root, is refused *)
+Theorem C06_request_view : forall g1 g2,
+  (forall n, In n ["Id"; "Version"; "Destination"; "ProtocolBinding"; "Issuer"; "Conditions"; "Signature"]%string ->
+             field xml_schema "samlp.AuthnRequestType" g1 n = field xml_schema "samlp.AuthnRequestType" g2 n) ->
+  authn_of xml_schema g1 = authn_of xml_schema g2.
+Proof. exact (authn_of_depends_on xml_schema). Qed.
+Theorem C06_wrong_root_refused : forall sp lc attrs kids,
+  (lc <> b "AuthnRequest" \/ sp <> b "urn:oasis:names:tc:SAML:2.0:protocol") -> authn_of_doc false (RElem sp lc attrs kids) = None.
+Proof. exact wrong_root_refused. Qed.
+Theorem C06_trailing_content_refused : forall doc, authn_of_doc true doc = None.
+Proof. exact trailing_content_refused. Qed.
+
 (** non-vacuity / sensitivity: without the content check the condition fails *)
 Example C06_mutant_rejected : has_tags (firstn 12 sso_steps ++ skipn 13 sso_steps) tags6 = false.
 Proof. vm_compute. reflexivity. Qed.
@@ -94,3 +110,6 @@ Print Assumptions C06_schema.
 Print Assumptions C06_encoding.
 Print Assumptions C06_unknown_encoding_refused.
 Print Assumptions C06_decode_from_source.
+Print Assumptions C06_request_view.
+Print Assumptions C06_wrong_root_refused.
+Print Assumptions C06_trailing_content_refused.
